@@ -210,12 +210,10 @@ def region_value(rid):
 
 def read_back(r):
     """{lang: [{start, end, lines, italic, chars[(ch, italic, layout value)], style}]}"""
-    if not isinstance(r, Stub) or not isinstance(r.attrs.get("_captions"), dict):
-        raise AnalysisError("DFXPReader.read: folded result is not a CaptionSet")
+    from .foldutil import captions_by_language, styles_of
     out = {}
-    doc_styles = r.attrs.get("_styles") or {}
-    for lang, lst in r.attrs["_captions"].items():
-        caps = lst.attrs["__list__"] if isinstance(lst, Stub) else lst
+    doc_styles = styles_of(r)
+    for lang, caps in captions_by_language(r, what="DFXPReader.read").items():
         rows = []
         for c in caps:
             chars, on = [], False
@@ -237,7 +235,7 @@ def read_back(r):
                          "chars": chars, "style": c.attrs.get("style") or {},
                          "layout": layout_value(c.attrs.get("layout_info"))})
         out[lang] = rows
-    return out, r.attrs.get("_styles")
+    return out, doc_styles
 
 
 def explore(ctx, thorough):
